@@ -23,7 +23,8 @@ def random_scenarios(rng, n, depth):
     out = []
     for _ in range(n):
         L = rng.choice([3, 4, 6, 10])
-        alpha = rng.sample(range(256), rng.choice([2, 3, 4, 8]))
+        bits = rng.choice([8, 8, 12, 12, 16, 20])
+        alpha = rng.sample(range(256 if bits % 8 == 0 else 16), rng.choice([2, 3, 4, 8]))
         nk = min(rng.choice([4, 6, 10]), len(alpha) ** L)
         keys = set()
         while len(keys) < nk:
@@ -46,7 +47,7 @@ def random_scenarios(rng, n, depth):
                 ops.append({"op": "upd", "k": k})
             else:
                 ops.append({"op": "rem", "k": k}); present.discard(kt)
-        out.append({"ops": ops, "keys": keys, "rl": []})
+        out.append({"ops": ops, "keys": keys, "rl": [], "bits": bits})
     return out
 
 
@@ -98,6 +99,15 @@ def run(pid):
             rep.cov["samples"] = [s["ops"] for s in scens[:: max(1, len(scens) // 3)][:3]]
         for i in range(0, len(scens), 60000):     # bounded memory: judge in chunks
             judge(rep, pid, scens[i:i + 60000], "bfs%d.%d" % (total_scn, i))
+        # the same histories under other index bit sizes (a bit size that is not a multiple of 8 leaves spare bits of the
+        # partly consumed byte in the stored key): a sample per size
+        # (the bucket table of a real index has 2^bits entries: fewer histories for the large sizes)
+        plan = {12: 4000, 16: 1500, 20: 600} if vlib.tier() == "quick" else {12: 40000, 16: 15000, 20: 6000, 24: 400}
+        for bits, per in plan.items():
+            sub = [dict(s, bits=bits) for s in rng.sample(scens, min(per, len(scens)))]
+            judge(rep, pid, sub, "bits%d.%d" % (bits, total_scn))
+            rep.cov.setdefault("histories_replayed_under_other_bit_sizes", 0)
+            rep.cov["histories_replayed_under_other_bit_sizes"] += len(sub)
     # 3. random longer histories over larger alphabets
     n, depth = (300, 40) if vlib.tier() == "quick" else (4000, 80)
     rs = random_scenarios(rng, n, depth)
